@@ -22,6 +22,7 @@ import os
 from lib import core
 
 DRIVER = "drv_nn"
+LEAN_TARGETS = ["OmplModel.Props.C10", DRIVER]
 ENGINE = "nn"
 UTIL = ["RandomNumbers.cpp", "Console.cpp", "ProlateHyperspheroid.cpp", "GeometricEquations.cpp"]
 TABLE6 = [[0, 1, 3, 4, 3, 2], [1, 0, 2, 3, 2, 3], [3, 2, 0, 1, 4, 5],
@@ -656,8 +657,8 @@ def run(ck):
                    "GNAT add/split/remove/rebuild are not modelled in lock-step: GnatInv and the abstraction are *checked on every dump* of the real tree instead of proved preserved"]
     ck.assumptions += ["the distance function is a metric (integer valued in the runs, so doubles are exact)",
                        "nearest() on an empty structure throws (outside the answer contract); points of the tabulated metric are 0..5"]
-    ck.lean_build(["OmplModel.Props.C10", DRIVER])
-    ck.audit()
+    ck.lean_build(LEAN_TARGETS)
+    ck.audit(roots=["Drv.NN"])
     if ck.tier == "thorough" and ck.lean_ok:
         ck.leanchecker(["OmplModel.Props.C10"])
     hbin = build(ck)
